@@ -220,42 +220,43 @@ PerEncode(t) == PerComplete(PerEnc(PerEmpty, t))
 PerPos(s) == IF s.o = 0 THEN 8 * Len(s.b) ELSE 8 * (Len(s.b) - 1) + s.o
 \* results: [s: encoder state after t, m: field start positions, ln: positions of the octet-aligned length determinants]
 RECURSIVE PerMarks(_, _, _)
-RECURSIVE MarksFields(_, _, _, _, _)
-MarksFields(s, fs, base, m, ln) ==
-   IF Len(fs) = 0 THEN [s |-> s, m |-> m, ln |-> ln]
-   ELSE IF Head(fs).present THEN LET r == PerMarks(s, Head(fs).v, base) IN MarksFields(r.s, Tail(fs), base, m \cup r.m, ln \cup r.ln)
-   ELSE MarksFields(s, Tail(fs), base, m, ln)
-RECURSIVE MarksElems(_, _, _, _, _, _)
-MarksElems(s, els, i, base, m, ln) ==
-   IF i > Len(els) THEN [s |-> s, m |-> m, ln |-> ln]
-   ELSE LET r == PerMarks(s, els[i], base) IN MarksElems(r.s, els, i + 1, base, m \cup r.m, ln \cup r.ln)
+RECURSIVE MarksFields(_, _, _, _, _, _)
+MarksFields(s, fs, base, m, ln, ol) ==
+   IF Len(fs) = 0 THEN [s |-> s, m |-> m, ln |-> ln, ol |-> ol]
+   ELSE IF Head(fs).present THEN LET r == PerMarks(s, Head(fs).v, base) IN MarksFields(r.s, Tail(fs), base, m \cup r.m, ln \cup r.ln, ol \cup r.ol)
+   ELSE MarksFields(s, Tail(fs), base, m, ln, ol)
+RECURSIVE MarksElems(_, _, _, _, _, _, _)
+MarksElems(s, els, i, base, m, ln, ol) ==
+   IF i > Len(els) THEN [s |-> s, m |-> m, ln |-> ln, ol |-> ol]
+   ELSE LET r == PerMarks(s, els[i], base) IN MarksElems(r.s, els, i + 1, base, m \cup r.m, ln \cup r.ln, ol \cup r.ol)
+\* ol: positions of the length determinants of open types only (an information element's value, a message's value)
 PerMarks(s, t, base) ==
    LET here == {base + PerPos(s)} IN
-   CASE t.k = "seq" -> LET s0 == IF t.ext THEN PutBit(s, 0) ELSE s IN MarksFields(EncPreamble(s0, t.fields), t.fields, base, here, {})
+   CASE t.k = "seq" -> LET s0 == IF t.ext THEN PutBit(s, 0) ELSE s IN MarksFields(EncPreamble(s0, t.fields), t.fields, base, here, {}, {})
      [] t.k = "seqof" ->
           LET n == Len(t.v)
               inRoot == InSize(n, t)
               s0 == IF t.ext THEN PutBit(s, IF inRoot THEN 0 ELSE 1) ELSE s
-          IN IF n >= 16384 THEN [s |-> PerEnc(s, t), m |-> here, ln |-> {}]
+          IN IF n >= 16384 THEN [s |-> PerEnc(s, t), m |-> here, ln |-> {}, ol |-> {}]
              ELSE IF (t.ext /\ ~inRoot) \/ ~(FixedSize(t) \/ SizeIsCW(t))
                   THEN LET s1 == PutULen(s0, n) lp == {base + PerPos(PerAlign(s0))} IN
-                       IF n = 0 THEN [s |-> s1, m |-> here \cup lp, ln |-> lp]
-                       ELSE MarksElems(PerAlign(s1), t.v, 1, base, here \cup lp, lp)
-             ELSE IF FixedSize(t) THEN MarksElems(s0, t.v, 1, base, here, {})
-             ELSE MarksElems(PutSizeCW(s0, n, t), t.v, 1, base, here, {})
+                       IF n = 0 THEN [s |-> s1, m |-> here \cup lp, ln |-> lp, ol |-> {}]
+                       ELSE MarksElems(PerAlign(s1), t.v, 1, base, here \cup lp, lp, {})
+             ELSE IF FixedSize(t) THEN MarksElems(s0, t.v, 1, base, here, {}, {})
+             ELSE MarksElems(PutSizeCW(s0, n, t), t.v, 1, base, here, {}, {})
      [] t.k = "choice" -> LET s0 == IF t.ext THEN PutBit(s, 0) ELSE s
                               r == PerMarks(PutCW(s0, t.idx, t.ub.n + 1), t.v, base)
-                          IN [s |-> r.s, m |-> here \cup r.m, ln |-> r.ln]
+                          IN [s |-> r.s, m |-> here \cup r.m, ln |-> r.ln, ol |-> r.ol]
      [] t.k = "open" -> LET inner == PerComplete(PerEnc(PerEmpty, t.v))
                             lp == {base + PerPos(PerAlign(s))}
-                        IN IF Len(inner) >= 16384 THEN [s |-> EncOpen(s, t), m |-> here, ln |-> {}]
+                        IN IF Len(inner) >= 16384 THEN [s |-> EncOpen(s, t), m |-> here, ln |-> {}, ol |-> {}]
                            ELSE LET sL == PerAlign(PutULen(s, Len(inner)))
                                     r == PerMarks(PerEmpty, t.v, base + PerPos(sL))
-                                IN [s |-> EncOpen(s, t), m |-> here \cup lp \cup r.m, ln |-> lp \cup r.ln]
+                                IN [s |-> EncOpen(s, t), m |-> here \cup lp \cup r.m, ln |-> lp \cup r.ln, ol |-> lp \cup r.ol]
      [] t.k \in {"octstr", "bitstr"} ->
           \* the length determinant of a variable-size string (aligned when the size range needs an octet or more)
           LET s0 == IF t.ext THEN PutBit(s, 0) ELSE s IN
-          [s |-> PerEnc(s, t), m |-> here, ln |-> IF FixedSize(t) THEN {} ELSE {base + PerPos(PerAlign(s0))}]
+          [s |-> PerEnc(s, t), m |-> here, ln |-> IF FixedSize(t) THEN {} ELSE {base + PerPos(PerAlign(s0))}, ol |-> {}]
      [] t.k = "int" ->
           \* the length of a length-prefixed INTEGER: a bit-field in front of a constrained value whose range exceeds 64K (the octet holding
           \* it is marked), an aligned octet in front of a semi-constrained / unconstrained / extension value
@@ -264,8 +265,8 @@ PerMarks(s, t, base) ==
               s0 == IF t.ext /\ t.lb.has /\ t.ub.has THEN PutBit(s, 0) ELSE s
               lp == IF ~(t.lb.has /\ t.ub.has) \/ ~inRoot THEN {base + PerPos(PerAlign(s0))}
                     ELSE IF wide THEN {base + PerPos(s0) - (PerPos(s0) % 8)} ELSE {}
-          IN [s |-> PerEnc(s, t), m |-> here, ln |-> lp]
-     [] OTHER -> [s |-> PerEnc(s, t), m |-> here, ln |-> {}]
+          IN [s |-> PerEnc(s, t), m |-> here, ln |-> lp, ol |-> {}]
+     [] OTHER -> [s |-> PerEnc(s, t), m |-> here, ln |-> {}, ol |-> {}]
 PerFieldStarts(t) == PerMarks(PerEmpty, t, 0).m
 \* paths to the open type nodes of a value tree (a path: field index / element index / 0 for the value of a CHOICE or open type)
 RECURSIVE OpenPaths(_, _)
@@ -292,6 +293,7 @@ SetRawAt(t, p, raw) ==
           [] t.k = "seq" -> [t EXCEPT !.fields[Head(p)].v = SetRawAt(t.fields[Head(p)].v, Tail(p), raw)]
           [] t.k = "seqof" -> [t EXCEPT !.v[Head(p)] = SetRawAt(t.v[Head(p)], Tail(p), raw)]
 PerLengthPositions(t) == PerMarks(PerEmpty, t, 0).ln
+PerOpenLengthPositions(t) == PerMarks(PerEmpty, t, 0).ol
 
 (* A BIT STRING value is its first nbits bits: the unused low-order bits of the last octet (and octets beyond it) of the Go   *)
 (* representation carry no information.  PerNorm clears them, so that values can be compared as ASN.1 values.                *)
